@@ -35,7 +35,7 @@ TOL = 1e-12
 
 
 def value(cname, k):
-    """k-th distinct element value of a class (k = 1..12)"""
+    """k-th distinct element value of a class (k = 1..20)"""
     a = 0.17 * k + 0.05
     if cname == 'SO2':
         return ref.rot2(a)
@@ -142,13 +142,14 @@ def descr(v):
 
 
 def binary(ctx, cname):
-    for (opn, opf), m, n, vs in itertools.product(OPS, range(1, 6), range(1, 6), (0, 1)):
+    top = 6 if ctx.tier == 'quick' else 8
+    for (opn, opf), m, n, vs in itertools.product(OPS, range(1, top), range(1, top), (0, 1) if ctx.tier == 'quick' else (0, 1, 2, 3)):
         cid = 'C09/%s/%s/m=%d/n=%d/set=%d' % (cname, opn, m, n, vs)
         if not ctx.want(cid):
             continue
-        lk = [1 + j + 3 * vs for j in range(m)]
-        rk = [7 + j - 2 * vs for j in range(n)]
-        if opn in ('==', '!=') and vs == 1:
+        lk = [1 + j + 3 * (vs % 2) + (vs // 2) for j in range(m)]
+        rk = [7 + j - 2 * (vs % 2) + 2 * (vs // 2) for j in range(n)]
+        if opn in ('==', '!=') and vs % 2 == 1:
             rk = [lk[j % m] if j % 2 == 0 else 7 + j for j in range(n)]      # some equal, some different elements
         L, R = build(cname, lk), build(cname, rk)
         site = '%s.%s' % (cname, {'*': 'mul', '/': 'div', '+': 'add', '-': 'sub', '==': 'eq', '!=': 'ne'}[opn])
